@@ -335,6 +335,7 @@ func (s *storage) GetWriter(key Key, revalidate bool, closeNotifier *chan KeyInf
 				accessTime:    accessTime(time.Now().Unix() - s.startedAt),
 				sizeKilobytes: uint32(size / 1024),
 			}
+			verifAdjustAccess(s, &ai, nil)
 			s.itemsChan <- &itemWithOp{op: opAdd, name: itemName(name), accessedItem: &ai}
 		}, now: func() time.Time {
 			return s.now()
@@ -910,6 +911,7 @@ func (s *storage) setAccessTime(key Key, size int64) {
 	name := itemName(key.FsName())
 	item := accessedItem{accessTime(time.Now().Unix() - s.startedAt), uint32(size / 1024)}
 	storableItem := storableAccessedItem{time.Now().Unix(), uint32(size / 1024)}
+	verifAdjustAccess(s, &item, &storableItem)
 	s.itemsChan <- &itemWithOp{op: opAccessTime, name: name, accessedItem: &item, storableAccessedItem: &storableItem}
 }
 
